@@ -138,6 +138,12 @@ func init() {
 		}
 		return okS(cmd.VerifReadCurrentRegex(p, string(a[1]), uint8(len(a[2]))))
 	}
+	implOps["semver.valid"] = func(a [][]byte) Result {
+		if err := cmd.VerifValidateSemver(string(a[0])); err != nil {
+			return diag(err.Error())
+		}
+		return okS("valid")
+	}
 	implOps["ruleid.parse"] = func(a [][]byte) Result {
 		id, file, k, err := cmd.VerifParseRuleId(string(a[0]))
 		if err != nil {
